@@ -62,6 +62,22 @@ def run(ctx):
         if not cov["stats"].get(k):
             raise vlib.Undecided("vacuous: %s never ran" % k)
 
+    # ---- order traces of sequential runs (WalOrder.tla): no page or header write while a statement holds the shared lock,
+    # every flush between statements; small page caches (8-16 pages) put the cache under pressure inside statements
+    import storelib
+    sbin = vlib.build_harness(ctx, "store")
+    pool = vlib.WorkerPool(ctx, sbin)
+    try:
+        ks = [8, 12, 0, 0] if ctx.quick() else [6, 8, 10, 12, 16, 24, 0, 0, 0, 0]
+        agg = storelib.random_runs(ctx, pool, cov, [dict(seed=ctx.seed * 1000 + 500 + i, n=(200 if ctx.quick() else 500), caps=([] if k else [3, 3]), cache=k,
+                                                         pcrash=(0 if k else 0.04), pflush=(0 if k else 0.2), wal=False, maxrows=(30 if k else 5),
+                                                         bias=("grow" if k else "")) for i, k in enumerate(ks)])
+        cov["order_events_accepted_by_walorder"] = agg.get("order_events_accepted_by_walorder", 0)
+    finally:
+        pool.close()
+    if not cov["order_events_accepted_by_walorder"]:
+        raise vlib.Undecided("vacuous: no order trace was validated")
+
     # ---- the same driver under the race detector (happens-before, independent of the timing observed)
     try:
         rbin = vlib.build_harness(ctx, "locks", race=True)
